@@ -109,6 +109,8 @@ static void *evloop_init(Tickit *t, void *initdata)
   sigemptyset(&evdata->watched_signals);
 #endif
 
+  sigemptyset(&evdata->pending_signals);
+
   if(!signal_observer)
     signal_observer = evdata;
 
